@@ -5,7 +5,7 @@
    the end of each group. *)
 From Lal Require Import Common.LBytes Common.Res Net.NetChk Net.NetChkProofs
   Net.NetRtpHeader Net.NetRtpHeaderProofs Net.NetRtcp Net.NetInterleaved Net.NetWsRead Net.NetFramingProofs
-  Net.NetAuHeader Net.NetAuHeaderProofs Net.NetUnpack Net.NetUnpackProofs Net.NetInSess Net.NetInSessProofs.
+  Net.NetAuHeader Net.NetAuHeaderProofs Net.NetUnpack Net.NetUnpackProofs Net.NetInSess Net.NetInSessProofs Net.NetPs Net.NetPsProofs.
 Open Scope N_scope.
 
 (* ---- 1. RTP header / packet / body ------------------------------------- *)
@@ -107,6 +107,34 @@ Theorem c13_insess_refuted :
   run_insess false c_none 0 0 c_h264 90000 96 [(2, [160; 96; 0; 1; 0; 0; 0; 2; 0; 0; 0; 3; 101; 9])] = Panic s_body_slice.
 Proof. exact run_insess_pinned_refuted. Qed.
 Print Assumptions c13_insess_refuted.
+
+(* ---- 5. GB28181 program stream unpacker -------------------------------- *)
+(* PsUnpacker.FeedRtpPacket on any sequence of datagrams, for any positive
+   reorder-queue size: every call returns (no panic, no loop out of fuel) *)
+Theorem c13_no_panic_ps : forall maxsize pkts, (1 <= maxsize)%Z ->
+  exists outs, run_ps true maxsize ps_init pkts = Ok outs.
+Proof. intros maxsize pkts H. apply run_ps_total; [exact H|exact ps_init_inv]. Qed.
+Print Assumptions c13_no_panic_ps.
+
+(* one call from any reachable state keeps the queue invariant (Size = length, all packets accepted) *)
+Theorem c13_ps_step : forall maxsize st b, (1 <= maxsize)%Z -> ps_inv st ->
+  exists err st' evs, ps_feed_rtp_packet true maxsize st b = Ok (err, st', evs) /\ ps_inv st'.
+Proof. exact ps_feed_rtp_packet_ok. Qed.
+Print Assumptions c13_ps_step.
+
+(* pinned tree: six sites reachable with a single datagram *)
+Theorem c13_ps_refuted :
+  run_ps false 1024 ps_init [ps_hdr 1 ++ [0; 0; 1]] = Panic s_ps_be32_index /\
+  run_ps false 1024 ps_init [ps_hdr 1 ++ [0; 0; 1; 224; 0]] = Panic s_ps_be16_index /\
+  run_ps false 1024 ps_init [ps_hdr 1 ++ [0; 0; 1; 224; 0; 0]] = Panic s_ps_av_index /\
+  run_ps false 1024 ps_init [ps_hdr 1 ++ [0; 0; 1; 224; 0; 3; 128; 128; 0]] = Panic s_ps_readpts_index /\
+  run_ps false 1024 ps_init [ps_hdr 1 ++ [0; 0; 1; 224; 0; 3; 128; 0; 9]] = Panic s_ps_av_slice /\
+  run_ps false 1024 ps_init
+    [ps_hdr 1 ++ [0; 0; 1; 188; 0; 14; 224; 255; 0; 0; 0; 4; 27; 224; 0; 0; 0; 0; 0; 0]
+                ++ [0; 0; 1; 224; 0; 12; 128; 128; 5; 33; 0; 1; 0; 1; 0; 0; 1; 101]
+                ++ [0; 0; 1; 224; 0; 12; 128; 128; 5; 33; 0; 1; 0; 3; 0; 0; 1; 101]] = Panic s_ps_wrap_index.
+Proof. exact run_ps_pinned_refuted. Qed.
+Print Assumptions c13_ps_refuted.
 
 (* non-vacuity: a well-formed packet with CSRC, extension and padding is accepted *)
 Example c13_rtp_nonvacuous :
